@@ -8,6 +8,7 @@ rm -rf $WT; git -C /repo worktree prune; git -C /repo worktree add -q --detach $
 cd $WT
 DEMO=$(python3 -c "import json;print(json.load(open('$OUT/meta.json'))['demo_cmd'])" | sed "s#/tmp/wt2\?/[A-Z0-9]*#$WT#g")
 CRATES=$(git apply --numstat $OUT/patch.diff | awk '{print $3}' | cut -d/ -f1 | sort -u | sed 's/^/libtw2-/' | tr '\n' ' ')
+CRATES=${CRATES_OVERRIDE:-$CRATES}
 echo "demo: $DEMO"; echo "crates: $CRATES"
 git apply $OUT/demo.diff || { echo "demo.diff does not apply"; exit 2; }
 ( eval "$DEMO" ) > $WT/demo_clean.log 2>&1; R1=$?
